@@ -43,6 +43,8 @@ type RunPlan struct {
 	Entries  []Entry       `json:"entries"`
 	Sizes    [4]uint64     `json:"sizes"` // committee index -> committee size
 	Merge    bool          `json:"merge,omitempty"`
+	// Large: the answer that is merged is as long as a busy node's for an epoch (dozens of duties)
+	Large bool `json:"large,omitempty"`
 	Origin   string        `json:"origin,omitempty"` // fresh | redeliver | reorg
 	Nodes    []NodeOut     `json:"nodes"`
 	Missing  []int         `json:"missing,omitempty"` // Vals without an account in this run
@@ -141,7 +143,7 @@ func gen(p *simrt.Tape, focus string) *Plan {
 			switch {
 			case p.Pct(18): // the same duty delivered again
 				src := pl.Runs[p.Pick(i)]
-				r.EpochOff, r.SlotIn, r.Sizes, r.Merge = src.EpochOff, src.SlotIn, src.Sizes, src.Merge
+				r.EpochOff, r.SlotIn, r.Sizes, r.Merge, r.Large = src.EpochOff, src.SlotIn, src.Sizes, src.Merge, src.Large
 				r.Entries = append([]Entry{}, src.Entries...)
 				r.Origin = "redeliver"
 				derived = true
@@ -171,6 +173,7 @@ func gen(p *simrt.Tape, focus string) *Plan {
 			genDuty(p, pl, &r)
 		}
 		r.Merge = r.Merge || (!derived && p.Pct(25))
+		r.Large = r.Large || (r.Merge && !derived && p.Pct(40))
 		// beacon node answers
 		cleanPct := 84
 		if c04 {
